@@ -173,6 +173,28 @@ def check_anchors(ctx, mod):
                              'rules cannot be evaluated' % (', '.join('%s %s' % m for m in missing[:8]), ctx.prop))
 
 
+def _returns_value(src):
+    """does the function itself (not a function nested in it) return a value"""
+    import ast
+    import textwrap
+    try:
+        tree = ast.parse(textwrap.dedent(src))
+    except SyntaxError:
+        return True
+    top = tree.body[0]
+
+    def walk(node):
+        for ch in ast.iter_child_nodes(node):
+            if isinstance(ch, (ast.FunctionDef, ast.Lambda, ast.AsyncFunctionDef)):
+                continue
+            if isinstance(ch, ast.Return) and ch.value is not None and not (isinstance(ch.value, ast.Constant) and ch.value.value is None):
+                return True
+            if walk(ch):
+                return True
+        return False
+    return walk(top)
+
+
 def _defer_broken(ctx):
     """a rule that cannot recognise the code any more (AnalysisBroken) must not keep the other rules of the property from
     being evaluated: a violation that another rule decides stands, whatever the order of the rules in run().  Every rule
@@ -198,7 +220,7 @@ def _defer_broken(ctx):
                 src = inspect.getsource(f)
             except (OSError, TypeError):
                 continue
-            if re.search(r'^\s+return\s+\S', src, re.M):
+            if _returns_value(src):
                 continue
 
             def make(f_):
